@@ -264,11 +264,20 @@ package pipeline
 //@     pure
 
 // work: a batch is committed only after its own send returned (when it has anything to send).
+// Every batch taken from fullBatches goes through commitBatch exactly once before
+// the next one is taken, whatever it holds by then (a batch emptied by the dead-queue
+// hand-over included): commitBatch is what advances commitSeq, and a sequence number
+// that never passes through it blocks every later batch (C02, C04, C08).
 
 //@ func (*Batcher).work
 //@   ghost sent bool = false
+//@   ghost ngot int = 0
+//@   ghost ncommit int = 0
+//@   loop 1 invariant ngot == ncommit
 //@   callee chanrecv:fullBatches() (v, ok)
+//@     requires ngot == ncommit
 //@     set sent := false
+//@     set ngot := ite(ok, ngot + 1, ngot)
 //@     ensures ok ==> v != nil && v.seq >= 0 && (v.status == BatchStatusMaxSizeExceeded || v.status == BatchStatusTimeoutExceeded)
 //@   callee OutFn(d, bt)
 //@     requires bt == batch
@@ -278,6 +287,8 @@ package pipeline
 //@     ensures bt.status == BatchStatusMaxSizeExceeded || bt.status == BatchStatusTimeoutExceeded || bt.status == BatchStatusInDeadQueue
 //@   callee commitBatch(bt)
 //@     requires bt == batch && (bt.hasIterableEvents ==> sent)
+//@     requires ncommit == ngot - 1
+//@     set ncommit := ncommit + 1
 //@   callee MaintenanceFn(d)
 //@     preserves Batcher
 
